@@ -61,6 +61,8 @@ type SpyMetastore struct {
 	Who     string
 	Mutated []string
 	NoYield bool
+	// Mute: calls are served without logging, yielding or faults (used by oracles that read the store).
+	Mute bool
 }
 
 func NewSpyMetastore() *SpyMetastore {
@@ -94,10 +96,16 @@ func recHash(r *ae.EnvelopeKeyRecord) string {
 }
 
 func (m *SpyMetastore) log(op, id string, created int64, res string) {
+	if m.Mute {
+		return
+	}
 	m.Calls = append(m.Calls, Call{Seq: len(m.Calls), Who: m.Who, Thread: vsched.CurThread(), Op: op, ID: id, Created: created, Result: res, At: vclock.Unix()})
 }
 
 func (m *SpyMetastore) fault(op string, kinds int) int {
+	if m.Mute {
+		return FaultNone
+	}
 	idx := len(m.Calls)
 	if m.Script != nil {
 		return m.Script(idx, op)
@@ -109,7 +117,7 @@ func (m *SpyMetastore) fault(op string, kinds int) int {
 }
 
 func (m *SpyMetastore) yield(op string) {
-	if !m.NoYield {
+	if !m.NoYield && !m.Mute {
 		vsched.Yield("ms." + op)
 	}
 }
@@ -257,6 +265,7 @@ type SpyKMS struct {
 	EncryptInputs [][]byte
 	Metastore *SpyMetastore // for a common call index with the metastore script, optional
 	NoYield  bool
+	Mute     bool
 }
 
 func NewSpyKMS() *SpyKMS {
@@ -274,10 +283,23 @@ func (k *SpyKMS) gcm() cipher.AEAD {
 }
 
 func (k *SpyKMS) log(op, res string) {
+	if k.Mute {
+		return
+	}
 	k.Calls = append(k.Calls, Call{Seq: len(k.Calls), Who: k.Who, Thread: vsched.CurThread(), Op: op, Result: res, At: vclock.Unix()})
 }
 
+func (k *SpyKMS) logID(op, res, id string) {
+	if k.Mute {
+		return
+	}
+	k.Calls = append(k.Calls, Call{Seq: len(k.Calls), Who: k.Who, Thread: vsched.CurThread(), Op: op, ID: id, Result: res, At: vclock.Unix()})
+}
+
 func (k *SpyKMS) fault(op string) bool {
+	if k.Mute {
+		return false
+	}
 	if k.Script != nil {
 		return k.Script(len(k.Calls), op) != 0
 	}
@@ -288,7 +310,7 @@ func (k *SpyKMS) fault(op string) bool {
 }
 
 func (k *SpyKMS) EncryptKey(_ context.Context, key []byte) ([]byte, error) {
-	if !k.NoYield {
+	if !k.NoYield && !k.Mute {
 		vsched.Yield("kms.EncryptKey")
 	}
 	k.EncryptInputs = append(k.EncryptInputs, append([]byte(nil), key...))
@@ -306,7 +328,7 @@ func (k *SpyKMS) EncryptKey(_ context.Context, key []byte) ([]byte, error) {
 }
 
 func (k *SpyKMS) DecryptKey(_ context.Context, enc []byte) ([]byte, error) {
-	if !k.NoYield {
+	if !k.NoYield && !k.Mute {
 		vsched.Yield("kms.DecryptKey")
 	}
 	if k.fault("DecryptKey") {
@@ -318,8 +340,10 @@ func (k *SpyKMS) DecryptKey(_ context.Context, enc []byte) ([]byte, error) {
 		k.log("DecryptKey", "autherror")
 		return nil, err
 	}
-	k.Returned = append(k.Returned, pt)
-	k.log("DecryptKey", "ok")
+	if !k.Mute {
+		k.Returned = append(k.Returned, pt)
+	}
+	k.logID("DecryptKey", "ok", fmt.Sprintf("%x", enc[:8]))
 	return pt, nil
 }
 
